@@ -20,7 +20,7 @@ COMPONENTS = {
 RULE = ("plans = coin class x which count or length crosses which compact-size boundary x amounts; non-trivial iff a count "
         "or length >= 0xfd is on the wire")
 FAULT_KINDS = []
-PROBES = ["wire_tx_witness", "wire_tx_witness_only_empty_items", "wire_big_inputs", "wire_big_outputs", "wire_big_out_script", "wire_big_in_script", "wire_big_witness_item",
+PROBES = ["wire_tx_witness", "wire_tx_witness_only_empty_items", "wire_tx_unspents", "wire_big_inputs", "wire_big_outputs", "wire_big_out_script", "wire_big_in_script", "wire_big_witness_item",
           "wire_big_witness_count", "inputs>=253", "n=0xfc", "n=0xfd", "n=0xffff", "n=0x10000"]
 
 
@@ -40,8 +40,12 @@ def gen_plan(rng, tier, index, config=None):
                         "seq": r.pick([0xFFFFFFFF, 0, r.bits(32)]), "witness": wit})
         outs = [{"value": r.pick([0, 1, 546, (1 << 64) - 1, r.bits(64)]), "script": r.bytes(r.pick([0, 22, 25, 34])).hex()}
                 for _k in range(r.weighted([(0, 1), (1, 4), (2, 3)]))]
-        steps.append({"op": "wire_tx", "tx": {"version": r.pick([1, 2, 0xFFFFFFFF, r.bits(32)]), "ins": ins, "outs": outs,
-                                              "locktime": r.pick([0, 499999999, 0xFFFFFFFF, r.bits(32)])}})
+        st = {"op": "wire_tx", "tx": {"version": r.pick([1, 2, 0xFFFFFFFF, r.bits(32)]), "ins": ins, "outs": outs,
+                                      "locktime": r.pick([0, 499999999, 0xFFFFFFFF, r.bits(32)])}}
+        if r.chance(0.5):
+            st["unspents"] = [[r.pick([1, 546, 21 * 10**14, 21 * 10**14 + 1, (1 << 63) - 1, 1 << 63, (1 << 64) - 1, r.bits(64) or 1]),
+                               r.bytes(r.pick([0, 22, 25, 34])).hex()] for _j in range(nin)]
+        steps.append(st)
     for _ in range(r.between(0, 3)):
         what = r.pick(["inputs", "outputs", "out_script", "in_script", "witness_item", "witness_count"])
         small = what in ("inputs", "outputs", "witness_count")
